@@ -18,7 +18,9 @@ def _set_range(ep, i, new):
 
 
 def _range_start(r):
-    return r.get("base", r.get("start"))
+    if "base" in r:
+        return r["base"] + r.get("idx", 0) * r.get("size", 0)
+    return r.get("start")
 
 
 def _range_size(r):
@@ -61,12 +63,29 @@ def inject_all(cfg):
             start2 = _range_start(r2)
             if "base" in new:
                 new["base"] = start2
+                new.pop("idx", None)
             else:
                 new["start"] = start2
                 if "end" in new:
                     new["end"] = start2 + _range_size(r)
             _set_range(c["endpoints"][i], j, new)
             yield "overlap", f"{eps[i]['name']}[{j}] onto {eps[i2]['name']}[{j2}]", c
+            if "array" in eps[i2] and "base" in r2:
+                arr = eps[i2]["array"]
+                cnt = arr if isinstance(arr, int) else (arr[0] * (arr[1] if len(arr) > 1 else 1))
+                if cnt > 1 and "array" not in eps[i]:
+                    c = copy.deepcopy(cfg)
+                    new = dict(r)
+                    tgt = r2["base"] + (cnt - 1) * r2["size"] + r2["size"] // 2
+                    if "base" in new:
+                        new["base"] = tgt
+                        new.pop("idx", None)
+                    else:
+                        new["start"] = tgt
+                        if "end" in new:
+                            new["end"] = tgt + _range_size(r)
+                    _set_range(c["endpoints"][i], j, new)
+                    yield "overlap", f"{eps[i]['name']}[{j}] onto the last element of {eps[i2]['name']}[{j2}]", c
             break
         # empty
         c = copy.deepcopy(cfg)
